@@ -38,8 +38,9 @@ structure UpInfo where
   key : Bytes
   deriving DecidableEq, Repr
 
-/-- content of a `.metadata.json` side file: a JSON map, or bytes that do not parse (`fs::copy` of the
-    file onto itself leaves it empty) -/
+/-- content of a `.metadata.json` side file: a JSON map, or bytes that do not parse. No operation of the current
+    code writes an unparsable file (before ca1e912 a copy of an object onto itself emptied it); the case is kept so
+    that the invariant can state it -/
 inductive MetaFile where
   | good (m : Meta)
   | corrupt
@@ -332,7 +333,12 @@ def step (H : Hashes) (dirLen : Nat) (s : State) : Op → State × Resp
     | some bd => if alHas bd s.buckets then (s, .ok) else (s, .err .NoSuchBucket)
   | .listBuckets => (s, .buckets (sortBytes (s.buckets.map (·.1))))
   | .putObject b k c md cks clen =>
-    if endsWithSlash k then
+    -- the bucket is resolved first (1d0f501): `get_bucket_path(bucket)?.exists()`
+    match bucketDir b with
+    | none => (s, .err .InvalidBucketName)
+    | some bd0 =>
+    if !alHas bd0 s.buckets then (s, .err .NoSuchBucket)
+    else if endsWithSlash k then
       -- "directory object"
       if (clen.any (· > 0)) then (s, .err .UnexpectedContent)
       else match objPath b k with
@@ -349,9 +355,9 @@ def step (H : Hashes) (dirLen : Nat) (s : State) : Op → State × Resp
           let (s1, ok) := s.commitFile bd p c
           if !ok then (s1, .err .InternalError)
           else
-            -- save_metadata only when the request carries metadata
+            -- `save_metadata` when the request carries metadata, else the old metadata file is removed (b01fec8)
             let r2 : Option State := match md with
-              | none => some s1
+              | none => some (if sideTooLong b k false then s1 else { s1 with metas := alErase (b, k) s1.metas })
               | some m => if sideTooLong b k false then none else some { s1 with metas := alInsert (b, k) (.good m) s1.metas }
             match r2 with
             | none => (s1, .err .InternalError)
@@ -383,16 +389,11 @@ def step (H : Hashes) (dirLen : Nat) (s : State) : Op → State × Resp
           match rangeCheck r len with
           | none => (s, .err .InvalidRange)
           | some (st, en) =>
+            -- b89afe2: `seek(Start(start))` for every range kind; an empty interval (suffix range of an empty
+            -- file) is answered without `Content-Range`
             let cl := en - st
-            -- `file_range.end - 1`: `end = 0` only for a suffix range on an empty file, where the wrapped value
-            -- is never seen because the seek below fails
-            let cr := fmtContentRange st (en - 1) len
-            match r with
-            | .int first _ => finish ((c.drop first).take cl) cl (some cr)
-            | .suffix n =>
-              if n > i64Max then (s, .panic)                       -- `numeric_cast::<i64>()`
-              else if n > len then (s, .err .InternalError)        -- `seek(End(-n))` before the start
-              else finish ((c.drop (len - n)).take cl) cl (some cr)
+            let cr := if st < en then some (fmtContentRange st (en - 1) len) else none
+            finish ((c.drop st).take cl) cl cr
   | .headObject b k =>
     match objPath b k with
     | .error e => (s, .err e)
@@ -455,21 +456,22 @@ def step (H : Hashes) (dirLen : Nat) (s : State) : Op → State × Resp
               | none => (s, .err .InternalError)
               | some s1 => (s1, .err .InternalError)
             | .file c =>
-              -- `fs::copy` opens the destination with `truncate`: a copy onto itself empties the file.
-              -- `create_dir_all(parent)` + writing the destination file = `commitFile` (fails on a directory)
-              let c' := if sbd = dbd ∧ sp = dp then [] else c
-              let (s2, ok) := s.commitFile dbd dp c'
-              if !ok then (s2, .err .InternalError)
+              if sbd = dbd ∧ sp = dp then
+                -- ca1e912: source and destination are one file: neither the file nor its metadata file is copied
+                match s.mkdirAll dbd dp.dropLast with
+                | none => (s, .err .InternalError)
+                | some s1 => (s1, .copied (some (etagOf H c)))
               else
-                let srcMeta := if sideTooLong sb sk false then none else alLookup (sb, sk) s2.metas
-                match srcMeta with
-                | none => (s2, .copied (some (etagOf H c')))
-                | some m =>
-                  if sideTooLong db dk false then (s2, .err .InternalError)
-                  else
-                    -- the metadata file is copied the same way: onto itself it ends up empty
-                    let m' := if (sb, sk) = (db, dk) then MetaFile.corrupt else m
-                    ({ s2 with metas := alInsert (db, dk) m' s2.metas }, .copied (some (etagOf H c')))
+                -- `create_dir_all(parent)` + writing the destination file = `commitFile` (fails on a directory)
+                let (s2, ok) := s.commitFile dbd dp c
+                if !ok then (s2, .err .InternalError)
+                else
+                  let srcMeta := if sideTooLong sb sk false then none else alLookup (sb, sk) s2.metas
+                  match srcMeta with
+                  | none => (s2, .copied (some (etagOf H c)))
+                  | some m =>
+                    if sideTooLong db dk false then (s2, .err .InternalError)
+                    else ({ s2 with metas := alInsert (db, dk) m s2.metas }, .copied (some (etagOf H c)))
   | .listObjectsV2 b pfx delim startAfter _maxKeys =>
     match bucketDir b with
     | none => (s, .err .InvalidBucketName)
@@ -493,6 +495,12 @@ def step (H : Hashes) (dirLen : Nat) (s : State) : Op → State × Resp
           let items := listKeys t pfx delim marker
           (s, .listed items items.length false [])
   | .createMultipartUpload who b k md =>
+    -- 1d0f501: `get_object_path(bucket, key)?`, then the bucket must exist
+    match objPath b k with
+    | .error e => (s, .err e)
+    | .ok (bd, _) =>
+    if !alHas bd s.buckets then (s, .err .NoSuchBucket)
+    else
     let id := s.issued + 1
     let s1 := { s with issued := id, uploads := alInsert id ⟨who, b, k⟩ s.uploads }
     match md with
